@@ -103,7 +103,7 @@ def random_script(rng, kind, size, nops, full_bytes=True):
             size = rng.randrange(2, 12); cap = size - 1; fill = 0
             lines.append("Resize %d" % cap)
         else:
-            lines += queries(rng, kind, size, fill)[:2]
+            qs = queries(rng, kind, size, fill); lines += rng.sample(qs, min(2, len(qs)))
     return lines
 
 
@@ -149,7 +149,7 @@ def check(ctx):
                 script.append(ln)
                 if ctx.rng.random() < 0.08:
                     st = core.parse_state(g.state[dst])
-                    script += queries(ctx.rng, kind, st["size"], fill_after(st))[:2]
+                    qs = queries(ctx.rng, kind, st["size"], fill_after(st)); script += ctx.rng.sample(qs, min(2, len(qs)))
     ctx.samples.append({"edge_cover_walk_prefix": script[:12]})
     # 3. random / boundary-biased scripts beyond the exhaustive bounds
     nrand = 2500 if ctx.thorough else 400
